@@ -1,5 +1,5 @@
 (* Extraction of the executable models to OCaml (ExtrOcamlBasic only; N/Z/positive stay inductive). *)
-From VF Require Import Bytes Meta Lock Region Freelist Alloc PageBuf Writer.
+From VF Require Import Bytes Meta Lock Region Freelist Alloc PageBuf Writer Api OpenLock.
 From Coq Require Import ExtrOcamlBasic.
 Extraction Language OCaml.
 Set Extraction KeepSingleton.
@@ -12,5 +12,7 @@ Extraction "model.ml"
   commit_step rollback quota data_avail tx_updated
   page_load page_set_bytes page_modify page_bytes page_free page_flush fresh_page existing_page
   run_batches spec_disk sort_batch
+  tx_result tx_next page_result page_next writer_result reader_result ack_result
+  open_step close_step
   lock_apply run_labels thread_step lk_idle
   valid_slot checksum_of read_valid_meta read_valid_meta_win choose decode_header encode_header.
